@@ -221,16 +221,30 @@ half_plus_q_regex = re.compile(
 
 # For cutting out whitespace and 'of the' or 'of' between identified
 # aliquot components:
+#
+# NOTE: Each run of whitespace is matched in its entirety and never given
+# back (a lookahead captures the run, and a backreference consumes it).
+# With plain `\s*` in each of these places, a long run of whitespace after
+# an aliquot that is NOT followed by another aliquot could be split
+# between them in very many ways, all of which were tried before giving
+# up -- which took seconds for a couple hundred characters.
 aliquot_intervener_remover_regex = re.compile(
     fr"""
     (?P<aliquot1>({aliquot_simple})+)  # first aliquot component
     (
-        \s*     # any amount of whitespace (to be removed)
-        
+        # At least whitespace or 'of' (or 'o' / 'f') must come between.
+        (?=[\sof])
+
+        # any amount of whitespace (to be removed)
+        (?=(?P<_ws1>\s*))(?P=_ws1)
+
         # 'of the' or 'of' (to be removed)
-        (\s+|of|o|f|o+f+)\s*(t+h+e+|t+e+h+|t+h+|t+)?
-        
-        \s*     # any amount of whitespace (to be removed)
+        (of|o|f|o+f+)?
+        (?=(?P<_ws2>\s*))(?P=_ws2)
+        (t+h+e+|t+e+h+|t+h+|t+)?
+
+        # any amount of whitespace (to be removed)
+        (?=(?P<_ws3>\s*))(?P=_ws3)
     )
     (?P<aliquot2>{aliquot_simple})  # second aliquot component
     """, re.IGNORECASE | re.VERBOSE)
